@@ -224,7 +224,9 @@ def judge_e2e(ctx, scn, expect, rep, err):
         late = [q for q in mine if q["n"] >= got[0]["requestsBefore"]]
         if late:
             ctx.violation("seed %s was acknowledged as finished before %s of its tree was even requested" % (sid, late[0]["key"]), rp); return
-        unfinished = [q for q in mine if q["done"] == 0 or q["done"] > got[0]["t"]]
+        # the origin notes "answered" after its handler returned, which can be a moment after the client has read the whole response:
+        # 200 ms of slack keep scheduling noise out
+        unfinished = [q for q in mine if q["done"] == 0 or q["done"] > got[0]["t"] + 200_000_000]
         if unfinished:
             ctx.violation("seed %s was acknowledged while the request for %s was still being answered" % (sid, unfinished[0]["key"]), rp); return
         keys = {q["key"] for q in mine}
